@@ -19,7 +19,8 @@ def case_diffs(lines, m, r, what):
     cm = compare.canon_model(m); cr = compare.canon_rust(r["report"])
     w = set(what)
     if "cost_if_no_events" in w and not classes.has_events(lines): w |= {"cost", "proceeds", "dgain"}
-    diffs = compare.compare_reports(cm, cr, what=tuple(w))
+    exact = bool(w & {"legs", "holdings"}) and classes.residue_site(lines) is None
+    diffs = compare.compare_reports(cm, cr, what=tuple(w), exact_qty=exact)
     if "dgain" in w:
         for ym, yr in zip(cm["years"], cr["years"]):
             for dm, dr in zip(ym["disposals"], yr["disposals"]):
@@ -103,7 +104,8 @@ def oracle_c02(lines, cr, rr):
         exp = sum((x["b"] - x["s"]) * K.rho(days, z, 10**9) for z, x in days.items())
         h = [h for h in cr["holdings"] if h["tick"] == t]
         got = h[0]["qty"] if h else F(0)
-        if abs(got - exp) > TOLQ * max(1, abs(exp)): fails.append(("closing_holding", t, str(got), str(exp)))
+        tolq = 0 if classes.residue_site([l for l in lines if l.tick.upper() == t]) is None else TOLQ * max(1, abs(exp))
+        if abs(got - exp) > tolq: fails.append(("closing_holding", t, str(got), str(exp)))
     return fails
 
 def effective_events(lines, t):
